@@ -23,6 +23,13 @@ NEEDS = {
  "C17": "WithVersion prefix + buffer 1-2 bytes short: panic inside hex_simd::encode (default features) / Ok(N) beyond the buffer (own encoders)",
  "C18": "tail full, then update() with a 0-3 byte piece under feature alloc: Vec from concat()",
 }
+def first_line(txt, key):
+    for ln in txt.splitlines():
+        if ln.startswith(key):
+            return ln[len(key):].strip()
+    return ""
+
+
 rows = []
 for pid in sorted(os.listdir(os.path.join(V, "seeded"))):
     d = os.path.join(V, "seeded", pid)
@@ -35,10 +42,10 @@ for pid in sorted(os.listdir(os.path.join(V, "seeded"))):
     caught_by = sorted(set(re.findall(r"\[vf\] FAIL \S+\s+(\S+)", check)))
     viol = re.search(r"VIOLATION property=(\S+)", check)
     meta = {
-        "property": pid,
+        "property": pid.split("-")[0],
         "patch": "patch.diff",
         "demonstration": "seed_demo.rs",
-        "needs_to_manifest": NEEDS.get(pid, ""),
+        "needs_to_manifest": NEEDS.get(pid, "") or first_line(agent, "NEEDS:"),
         "author": "independent sub-agent given only the property text and a scratch worktree",
         "agent_notes": agent.strip(),
         "confirmed": {
@@ -55,7 +62,7 @@ for pid in sorted(os.listdir(os.path.join(V, "seeded"))):
         },
     }
     json.dump(meta, open(os.path.join(d, "meta.json"), "w"), indent=1)
-    rows.append("| %s | %s | %s | %s |" % (pid, NEEDS.get(pid, ""), ", ".join(caught_by[:4]) or "-",
+    rows.append("| %s | %s | %s | %s |" % (pid, meta["needs_to_manifest"], ", ".join(caught_by[:4]) or "-",
                                           meta["check_run"]["verdict"]))
 print("| seed | needs, to manifest | failing harnesses | verdict of the property's quick check |")
 print("|---|---|---|---|")
